@@ -52,6 +52,15 @@ fn edit_for(rng: &mut Rng, counter: &mut u32, text: &str) -> Edit {
         };
     }
     let (li, l) = rng.pick(&stmts).clone();
+    if rng.chance(60) && (li + 1) < n_lines {
+        // same byte length, same number of lines, but the line break moves: `;\n ` -> `; \n`
+        // (every position behind it on these two lines changes although no byte offset does)
+        *counter -= 1;
+        return Edit {
+            range: Some([li, l.len() as u32, li + 1, 1]),
+            text: " \n".to_string(),
+        };
+    }
     match rng.below(6) {
         0 | 1 | 2 => {
             // replace exactly the value token
@@ -417,7 +426,7 @@ pub fn judge(sc: &Scenario) -> Judgement {
     let mut closed_probe = 0;
     for (step_idx, st) in sc.script.iter().enumerate() {
         match &st.op {
-            ClientOp::Initialize { id, diag: d } => {
+            ClientOp::Initialize { id, diag: d, .. } => {
                 diag = *d;
                 want_resp.push((*id as i64, None));
             }
